@@ -9,6 +9,7 @@ package main
 import (
 	"context"
 	"encoding/binary"
+	"errors"
 	"fmt"
 	"io"
 	"log"
@@ -583,7 +584,7 @@ func (c *cluster) restartHost(i int) error {
 				}
 				img.log = fromPBEntries(ents)
 			}
-		} else if err != raftio.ErrNoSavedLog {
+		} else if !errors.Is(err, raftio.ErrNoSavedLog) {
 			return fmt.Errorf("ReadRaftState %s: %v", k, err)
 		}
 		e := event{kind: 'C', k: k, rec: img}
@@ -612,8 +613,23 @@ func (c *cluster) restartHost(i int) error {
 		r.mu.Unlock()
 		c.notes["recoveries_compared"]++
 	}
-	return c.startReplicas(i, true)
+	var err error
+	p := vh.Catch(func() { err = c.startReplicas(i, true) })
+	if p != "" || err != nil {
+		// the replica cannot come back from what its store holds after the power cut: the
+		// run ends here; the trace recorded so far carries the finding
+		r.mu.Lock()
+		for _, s := range c.shards {
+			r.events = append(r.events, event{kind: 'F', k: key{s, uint64(i + 1)}, index: 0})
+		}
+		r.mu.Unlock()
+		c.notes["restart_failed"]++
+		return errAborted
+	}
+	return nil
 }
+
+var errAborted = errors.New("run aborted: replica not restartable after a crash")
 
 func (c *cluster) close() {
 	for _, h := range c.hosts {
@@ -629,6 +645,18 @@ func liveRun(seed uint64, useTan bool, execShards uint64, tier string, saveDelay
 	nShards := 3
 	c := newCluster(seed, useTan, execShards, nShards, saveDelay)
 	defer c.close()
+	defer func() {
+		if err == errAborted {
+			err = nil
+			notes = c.notes
+			traces = nil
+			for _, h := range c.hosts {
+				h.rec.mu.Lock()
+				traces = append(traces, append([]event(nil), h.rec.events...))
+				h.rec.mu.Unlock()
+			}
+		}
+	}()
 	if err = c.start(); err != nil {
 		return nil, nil, err
 	}
